@@ -19,6 +19,10 @@ def run(ctx):
     atomic = ctx.tlc("TxPoolConc", cfg="TxPoolConc_atomic.cfg")
     ascoded = ctx.tlc("TxPoolConc", cfg="TxPoolConc_ascoded.cfg", allow_violation=True)
     sched_run = ctx.tlc("TxPoolConc", cfg="TxPoolConc.cfg")
+    readers = ctx.tlc("TxPoolConc", cfg="TxPoolConc_readers.cfg")
+    cached = ctx.tlc("TxPoolConc", cfg="TxPoolConc_cachedview.cfg", allow_violation=True)
+    if not cached["error"]:
+        raise Inconclusive("negative control: the cached-pending-view variant was not refuted by the model")
     scheds = parse_json_lines(ctx, sched_run, "SCHED")
     gen_cfg = """SPECIFICATION Spec
 CONSTANTS
@@ -50,6 +54,11 @@ CHECK_DEADLOCK FALSE
             a += ["--big", "1"]
         if k in (0, 1):
             a += ["--conc", sp_conc]
+        # block-size boundaries (the pool's internal write batches, the per-block limit)
+        size_sets = ["1,2,99,100,101", "199,200", "201,250", "150,300"] if quick else \
+                    ["1,2,3,50,99,100,101", "149,150,151", "198,199", "200", "201,202", "250,299", "300,301", "400", "64,128,256", "32,512"]
+        if k >= 2 and k - 2 < len(size_sets):
+            a += ["--sizes", size_sets[k - 2]]
         argvs.append(a)
     outs = ctx.run_parallel(argvs)
     stat = collections.Counter()
@@ -79,7 +88,7 @@ CHECK_DEADLOCK FALSE
             raise Inconclusive("vacuity: no %s event" % need)
     if gates["add.checked"] == 0 or (gates["mark.written"] == 0 and gates["blocked"] == 0):
         raise Inconclusive("vacuity: the scheduling gates (hook H7) were never reached: %s" % dict(gates))
-    runs = [mc, atomic, ascoded, sched_run, gen]
+    runs = [mc, atomic, ascoded, sched_run, gen, readers]
     # the clause "removed by a reorg -> pending again, new chain -> executed" through the chain's own
     # bookkeeping, including a process death before every store write of the reorg and the restart:
     # block trees with transactions from BlockStoreGen, replayed on the real chain + pool by the c05
@@ -130,6 +139,7 @@ CHECK_DEADLOCK FALSE
     finish(ctx, "model_checking", coverage, [
         "pack/mark/unmark are driven on the real TxPool with its real LevelDB executed store; state nonces come from a real AccountDB",
         "the dev fork schedule below height 12 is in force (Transactions.Less of Proposal021)",
+        "lock-free readers (PackForCast, GetReceived) are one more thread of the schedules: a read may fall between any two critical sections of the overlapping calls",
         "concurrency: every interleaving of the pool's unlocked critical sections for two overlapping calls (Add with Add/Mark/UnMark of the same transaction) "
         "is enumerated by TLC and replayed with the gate hook; schedules of three or more overlapping calls and the goroutine schedules the Go runtime "
         "would produce on its own are not explored",
